@@ -13,6 +13,7 @@ for tc in ET.parse(sys.argv[1]).getroot().iter('testcase'):
     skipped = any(ch.tag == 'skipped' for ch in tc)
     if bad: failed.add(tid)
     elif not skipped: passed.add(tid)
+passed -= failed   # pytest-rerunfailures writes one entry per attempt: any failed attempt counts as failed
 missing = sorted(base - passed)
 print("baseline stable_pass: %d, passed now: %d, baseline tests not passing now: %d" % (len(base), len(passed), len(missing)))
 for m in missing: print("  REGRESSION", m)
